@@ -58,16 +58,8 @@ macro "prog_equiv" "[" ds:Lean.Parser.Tactic.simpLemma,* "]" : tactic =>
 
 /-! ### the translated bodies as functions, bottom-up -/
 
-def genStart (n : Node) : Node := (runBody {} startUpActionsProg n).1
-def genShut (n : Node) : Node := (runBody {} shutDownActionsProg n).1
-def genOn (n : Node) : Node × Option Bool := runBody { start := genStart, shut := genShut } powerOnProg n
-def genOnB (n : Node) : Node × Bool := ((genOn n).1, (genOn n).2.getD false)
-def genOff (n : Node) : Node × Option Bool := runBody { start := genStart, shut := genShut, on := genOnB } powerOffProg n
-def genOffB (n : Node) : Node × Bool := ((genOff n).1, (genOff n).2.getD false)
-def genReset (n : Node) : Node × Option Bool :=
-  runBody { start := genStart, shut := genShut, on := genOnB, off := genOffB } resetProg n
-def genTickPower (n : Node) : Node × Option Bool :=
-  runBody { start := genStart, shut := genShut, on := genOnB, off := genOffB } tickPowerProg n
+/- `genStart`, `genShut`, `genOn`, `genOff`, `genReset`, `genTickPower` (the translated bodies run by `runBody`, callees bound to the
+translated callees) are defined in Gen/PowerProg.lean, so that the counter-model search of Drivers/C12Prog.lean uses the same. -/
 
 /-- no recursion: the actions call nothing, `power_on` calls neither power method, `power_off` may call `power_on` only -/
 theorem C12_gen_call_graph :
